@@ -9,7 +9,7 @@ instantiated at i, as pointwise facts -- the induction hypothesis of the modular
 atom the *real* `puan.variable` code runs on a real instance with symbolic fields.
 """
 import z3
-from .sym import (SInt, SBool, SId, Unsupported, ctx, lift, to_term, to_bterm, local_paths, fresh_name, site)
+from .sym import (isi, SInt, SBool, SId, Unsupported, ctx, lift, to_term, to_bterm, local_paths, fresh_name, site)
 from .folds import Base, Gen, Seq, merge
 
 I = z3.IntSort()
@@ -281,7 +281,7 @@ class Contract:
         memo = c.__dict__.setdefault("contract_results", {})
         if key in memo:
             fam = memo[key]
-            return fam.at(node._idx) if isinstance(fam, Family) else fam(node)
+            return fam.at(node._idx) if isi(fam, Family) else fam(node)
         if self.result_factory is not None:
             res = self.result_factory(node, *args, **kwargs)
             memo[key] = lambda n, _r=res: _r
@@ -316,7 +316,7 @@ class Contract:
 
 def fsum(xs, f):
     from .folds import seq_sum, has_abstract
-    if isinstance(xs, Seq) or has_abstract(xs):
+    if isi(xs, Seq) or has_abstract(xs):
         return seq_sum(xs, f)
     total = 0
     for x in xs:
@@ -326,7 +326,7 @@ def fsum(xs, f):
 
 def fall(xs, f):
     from .folds import seq_all, has_abstract, to_seq
-    if isinstance(xs, Seq) or has_abstract(xs):
+    if isi(xs, Seq) or has_abstract(xs):
         return seq_all(to_seq(xs), f)
     acc = True
     for x in xs:
@@ -336,7 +336,7 @@ def fall(xs, f):
 
 def fany(xs, f):
     from .folds import seq_any, has_abstract, to_seq
-    if isinstance(xs, Seq) or has_abstract(xs):
+    if isi(xs, Seq) or has_abstract(xs):
         return seq_any(to_seq(xs), f)
     acc = False
     for x in xs:
